@@ -449,3 +449,23 @@ class RequestGuards:
         return not (400 <= result.code <= 499)
 
     ensures = [sent_under_semaphore, no_4xx_returned]
+
+
+def _native(tier, seed):
+    from harness import ip_requests
+
+    return ip_requests.run(tier, seed, "C08/aiohomekit.controller.ip.connection:InsecureHomeKitProtocol#native")
+
+
+def _native_replay(env, con, obs):
+    r = _native("quick", 0)
+    if r["failures"]:
+        f = r["failures"][0]
+        f.update({"confirmed": True, "source": "native-schedule", "key": f["clause"]})
+        return f
+    return {"confirmed": False, "inputs_tried": r["cases"]}
+
+
+Dispatch.bounded_run = staticmethod(_native)
+for _c in (Dispatch, SendLines, CancelPending, ConnectionLost, EofReceived, HandleTimeout):
+    _c.replay = staticmethod(_native_replay)
